@@ -44,6 +44,13 @@ CLAIMED = {
         "themselves (constraint generation) are not decided.",
    technique="static analysis: stage-event ordering (must-pass-through gate), coverage audit of the unifier and type traversals, expected-type plumbing rule",
    ref="DESIGN.md section 4, C03"),
+ "C04": dict(
+   text="Whole-pipeline panic freedom is not decided. Decided: every grammar loop makes progress (abstract interpretation of the parser's "
+        "functions over token-set states with function summaries; FIRST sets checked against the arms they guard), assert preconditions "
+        "are guarded at every call site, the package/artifact layer maps I/O and JSON failures to diagnostics, the lookup layer (typer, "
+        "env) has no explicit panic site, and the occurs check handles every type former.",
+   technique="static analysis: abstract interpretation (must-advance) of the recursive-descent parser + who-may-call on resolved panic sites (MIR)",
+   ref="DESIGN.md section 4, C04"),
  "C05": dict(
    text="Static decision of the scoping discipline in the two places that implement lexical scope: the scope constructs are derived "
         "from where the typer opens scopes; for each the AST->HIR resolver must resolve the scoped children in a child environment "
